@@ -573,9 +573,60 @@ def subpackage_api(r):
     return req, [[root, subm], [root], [subm]]
 
 
+def add_dep_refs(dep, types):
+    """In the DEPENDENCY file: a message whose string fields carry google.api.resource_reference annotations naming
+    resources whose messages live in the TARGET package: type at depth 1, child_type at depth 2, type at depth 3."""
+    ref = dep.message("BookRef")
+    scope = ref.nested("Scope")
+    deep = scope.nested("Deep")
+    deep.field("vault", 1, "string", ref=types[2])
+    scope.field("shelf_parent", 1, "string", child_ref=types[1]).field("deep", 2, deep.fqn)
+    ref.field("book", 1, "string", ref=types[0]).field("scope", 2, scope.fqn)
+    return ref
+
+
+def depref_api():
+    """Fixed names (seeded change C16-h): CheckOutRequest.ref is the dependency-package message
+    google.example.type.BookRef, whose fields reference the target-package resources Book, Shelf and Vault;
+    nothing else leads to them."""
+    pkg = "google.example.library.v1"
+    dep = File("google/example/type/refs.proto", "google.example.type", deps=["google/api/resource.proto"])
+    ref = add_dep_refs(dep, ["example.googleapis.com/Book", "example.googleapis.com/Shelf", "example.googleapis.com/Vault"])
+    dep.message("Unused").field("x", 1, "string")
+    f = File("google/example/library/v1/library.proto", pkg, deps=list(apigen.STD_DEPS) + [dep.proto.name])
+    book = f.message("Book")
+    details = f.message("BookDetails")
+    genre = details.enum("Genre", ["GENRE_UNSPECIFIED", "FICTION", "POETRY"])
+    details.field("pages", 1, "int32").field("genre", 2, ("enum", genre))
+    book.field("name", 1, "string").field("details", 2, details.fqn)
+    book.resource("example.googleapis.com/Book", ["shelves/{shelf}/books/{book}"])
+    shelf = f.message("Shelf")
+    row = shelf.nested("Row")
+    row.field("height", 1, "int32")
+    shelf.field("name", 1, "string").field("rows", 2, row.fqn, repeated=True)
+    shelf.resource("example.googleapis.com/Shelf", ["shelves/{shelf}"])
+    vk = f.enum("VaultKind", ["VAULT_KIND_UNSPECIFIED", "COLD"])
+    vault = f.message("Vault")
+    vault.field("name", 1, "string").field("kind", 2, ("enum", vk))
+    vault.resource("example.googleapis.com/Vault", ["vaults/{vault}"])
+    creq = f.message("CheckOutRequest")
+    creq.field("name", 1, "string").field("ref", 2, ref.fqn)
+    cres = f.message("CheckOutResponse")
+    cres.field("ok", 1, "bool")
+    rreq = f.message("ReturnBookRequest")
+    rreq.field("name", 1, "string")
+    f.message("Unrelated").field("x", 1, "string")
+    s = f.service("Library", host="library.example.com")
+    s.rpc("CheckOut", creq.fqn, cres.fqn, http=("post", "/v1/{name=shelves/*/books/*}:checkOut"), body="*")
+    s.rpc("ReturnBook", rreq.fqn, cres.fqn, http=("post", "/v1/{name=shelves/*/books/*}:return"), body="*")
+    return apigen.request([dep, f], to_generate=[f.proto.name])
+
+
 def dep_package_api(r):
-    """A target package that uses a message of its own dependency package (T2 only: no pb2 module exists for it)."""
+    """A target package that uses messages of its own dependency package; one of them carries resource references
+    (type / child_type, down to depth 3 inside the dependency) to resources whose messages are in the target package."""
     dep = File("acme/common/meta.proto", "acme.common", deps=["google/api/resource.proto"])
+    ref = add_dep_refs(dep, ["library.example.com/Crypt", "library.example.com/Niche", "library.example.com/Urn"])
     meta = dep.message("Meta")
     meta.field("name", 1, "string").field("tag", 2, "string")
     meta.resource("common.acme.test/Meta", ["metas/{meta}"])
@@ -586,7 +637,22 @@ def dep_package_api(r):
     req0 = next(m for m in api.main.proto.message_type if m.name.endswith("Request"))
     num = max(f.number for f in req0.field) + 1
     apigen.Msg(None, req0, "").field("meta", num, meta.fqn).field("meta_ref", num + 1, "string", ref="common.acme.test/Meta")
-    return build_request(api, extra_files=[dep], to_generate=[f.proto.name for f in api.files]), knobs | {"dep_package"}
+    apigen.Msg(None, req0, "").field("book_ref", num + 2, ref.fqn)
+    # target-package resources that only the dependency message's references lead to
+    for word in ("Crypt", "Niche", "Urn"):
+        m = api.main.message(word)
+        extra = api.main.message(word + "Details")
+        en = extra.enum("Grade", ["GRADE_UNSPECIFIED", "FINE"])
+        extra.field("grade", 1, ("enum", en))
+        m.field("name", 1, "string").field("details", 2, extra.fqn)
+        m.resource(f"library.example.com/{word}", [f"{word.lower()}s/{{{word.lower()}}}"])
+    for fobj in api.files:
+        for sv in fobj.proto.service:
+            for me in sv.method:
+                if me.input_type == f".{api.package}.{req0.name}":
+                    api.info.setdefault("c16_subsets", []).append([f"{api.package}.{sv.name}.{me.name}"])
+    api.info["c16_subsets"] = api.info["c16_subsets"][-1:] + api.info["c16_subsets"][:-1]
+    return build_request(api, extra_files=[dep], to_generate=[f.proto.name for f in api.files]), knobs | {"dep_package", "dep_resource_ref"}, [h for h in api.info.get("c16_subsets", []) if h and all(h)]
 
 
 def pick_subsets(r, mbs, limit, first=()):
